@@ -815,7 +815,7 @@ func genConcurrent(profile, prop string, seed uint64, r *rand.Rand) *Plan {
 		p.Tasks = append(p.Tasks, tp)
 	}
 	if profile == "conc" {
-		nh := 1 + r.IntN(3)
+		nh := 2 + r.IntN(2)
 		for k := 0; k < nh; k++ {
 			tp := TaskPlan{Name: fmt.Sprintf("H%d", k+1)}
 			n := 1 + r.IntN(3)
